@@ -3,6 +3,7 @@
 from __future__ import annotations
 
 import hashlib
+import itertools
 import os
 import shutil
 import string
@@ -98,11 +99,17 @@ def lower_time() -> str:
     return i2alpha(int(time.time()), width=8, alphabet=string.ascii_lowercase)
 
 
+_id_serial = itertools.count()
+
+
 def new_id() -> str:
+    # NOTE the clock alone does not make ids unique: readings repeat on coarse
+    #   clocks and wrap around modulo 10**d. The process id and a per-process
+    #   serial number keep ids distinct within and across processes.
     d = 8
     t = time.monotonic_ns()
     _mm, mn = divmod(t, 10**d)
-    return i2greek(mn, width=d)
+    return f"{i2greek(mn, width=d)}-{i2greek(os.getpid())}-{i2greek(next(_id_serial))}"
 
 
 def hash2byte(data: Any) -> bytes:
